@@ -128,48 +128,33 @@ Theorem C20_file_lines :
 Proof. exact raw_lines_unlines. Qed.
 Print Assumptions C20_file_lines.
 
-(* FULL STATEMENT ("every line of a play file parses ... to exactly one of ..."), for any text:
-       forall pd ro ai ls last, (forall l, In l ls -> no_nl l) -> no_nl last ->
-         load_text pd ro ai (unlines ls ++ last) =
-           (map (fun l => parse_line pd ro ai (drop_cr l)) (phys ls last), false)
-   It is FALSE of the faithful model (C20_every_line_one_item_refuted below): a physical line of
-   65536 bytes or more makes bufio.Scanner stop with ErrTooLong; that line and the lines after it
-   give no item, LoadFile returns the error and `relay file` refuses the file.  Proved here under
-   exactly the guard that excludes it: every physical line is shorter than 65536 bytes. *)
-Theorem C20_load_text_items_partial :
+(* every line of ANY length (the repair F14d removed bufio.Scanner's 64 KiB limit) *)
+Theorem C20_load_text_items :
   forall pd ro ai ls last,
     (forall l, In l ls -> no_nl l) -> no_nl last ->
-    (forall l, In l (phys ls last) -> (lenN l < max_token)%N) ->
     load_text pd ro ai (unlines ls ++ last) =
-      (map (fun l => parse_line pd ro ai (drop_cr l)) (phys ls last), false).
+      map (fun l => parse_line pd ro ai (drop_cr l)) (phys ls last).
 Proof. exact load_text_items. Qed.
-Print Assumptions C20_load_text_items_partial.
-
-(* the witness: a file that is one line of 65536 '=' has one physical line, gives no item, and
-   the load fails; replayed on the real LoadFile in every run (text corpus of the harness) *)
-Theorem C20_every_line_one_item_refuted :
-  forall pd ro ai, exists text,
-    List.length (raw_lines text) = 1%nat /\ load_text pd ro ai text = ([], true).
-Proof. intros pd ro ai. exists (rep 65536 "="). exact (long_line_refused pd ro ai). Qed.
-Print Assumptions C20_every_line_one_item_refuted.
-
-(* what exactly happens then: the items of the lines before it, and the load fails *)
-Theorem C20_load_text_too_long :
-  forall pd ro ai ls last a l b,
-    (forall x, In x ls -> no_nl x) -> no_nl last -> phys ls last = (a ++ l :: b)%list ->
-    (forall x, In x a -> (lenN x < max_token)%N) -> (max_token <= lenN l)%N ->
-    load_text pd ro ai (unlines ls ++ last) = (map (fun x => parse_line pd ro ai (drop_cr x)) a, true).
-Proof. exact load_text_too_long. Qed.
-Print Assumptions C20_load_text_too_long.
+Print Assumptions C20_load_text_items.
 
 Theorem C20_file_check_iff_malformed :
   forall pd ro ai ls last,
     (forall l, In l ls -> no_nl l) -> no_nl last ->
-    (forall l, In l (phys ls last) -> (lenN l < max_token)%N) ->
-    (check_fails (fst (load_text pd ro ai (unlines ls ++ last))) = true <->
+    (check_fails (load_text pd ro ai (unlines ls ++ last)) = true <->
      exists l, In l (phys ls last) /\ malformed pd ro ai (drop_cr l)).
 Proof. exact file_check_iff_malformed. Qed.
 Print Assumptions C20_file_check_iff_malformed.
+
+(* EVIDENCE ONLY, about the loader as it was BEFORE F14d (load_text_limited = the same loader with
+   bufio.Scanner's default limit): that model violates the clause - a file that is one line of
+   65536 '=' has one physical line, gave no item, and the load failed.  The check found this, it
+   was repaired in /repo (d428daa), and the harness keeps loading lines of 65535 .. several MiB
+   through the real LoadFile and requires their items. *)
+Theorem C20_old_scanner_limit_refuted :
+  forall pd ro ai, exists text,
+    List.length (raw_lines text) = 1%nat /\ load_text_limited pd ro ai text = ([], true).
+Proof. intros pd ro ai. exists (rep 65536 "="). exact (old_limit_refused pd ro ai). Qed.
+Print Assumptions C20_old_scanner_limit_refuted.
 
 (* ---- the filter: for every sequence of accept / deny / reset (and delete) commands and every line ---- *)
 Theorem C20_filter_spec :
@@ -287,7 +272,9 @@ Example C20_witness :
   check_fails (parse_file ex_pd ex_ro ex_ai ["# c"; "[5] hello"; "go"]) = true /\
   (* a file with a CRLF line, an empty line and an unterminated last line *)
   load_text ex_pd ex_ro ex_ai (str [35;32;99;13;10; 10; 91;53;93;32;104;10; 103;111]%N) =
-    ([IComment false "c"; ISend "" 0 "" 0 0; IError; ISend "go" 0 "" 0 0], false) /\
+    [IComment false "c"; ISend "" 0 "" 0 0; IError; ISend "go" 0 "" 0 0] /\
+  (* a line of 65536 bytes is a line like any other *)
+  List.length (load_text ex_pd ex_ro ex_ai (rep 65536 "=")) = 1%nat /\
   (* filter: accept [a-h], deny [0-9]; then reset *)
   frun ex_mt fnew [Line "zz"; Act (Accept "[a-h]"); Act (Deny "[0-9]"); Line "ah"; Line "ah0"; Line "zz";
                    Act Reset; Line "zz"] = ["zz"; "ah"; "zz"] /\
